@@ -99,6 +99,28 @@ def build_harness():
         lock.close()
 
 
+def build_harness_debug():
+    """The same harness built WITHOUT optimisation (cargo's dev profile): recursion that the optimiser turns into a loop, and
+    arithmetic it folds away, behave differently there.  Used by C03 for the very long inputs only."""
+    lock = open(os.path.join(WORK, ".build.lock"), "w")
+    fcntl.flock(lock, fcntl.LOCK_EX)
+    try:
+        env = dict(os.environ)
+        env["CARGO_NET_OFFLINE"] = "true"
+        env.pop("RUSTFLAGS", None)
+        t = time.time()
+        p = subprocess.run(["cargo", "build", "--offline", "--bin", "t2n-harness"], cwd=HARNESS_DIR, env=env,
+                           stdout=subprocess.PIPE, stderr=subprocess.STDOUT, text=True)
+        if p.returncode != 0:
+            sys.stderr.write(p.stdout[-6000:])
+            raise ToolError("unoptimised harness build failed")
+        log("unoptimised harness built in %.1fs" % (time.time() - t))
+        return os.path.join(HARNESS_DIR, "target", "debug", "t2n-harness")
+    finally:
+        fcntl.flock(lock, fcntl.LOCK_UN)
+        lock.close()
+
+
 def build_threads_bin():
     """Builds the C14 binary, the only code that needs the interpreters to be Send + Sync.  Returns None when it built, or
     the compiler's message when the build failed BECAUSE an interpreter type is not Send / Sync (that is a C14 violation,
@@ -345,13 +367,19 @@ def validate(ctx, module, cfg, obs_path, trace=False, min_lines=3000, group_key=
 
 # --------------------------------------------------------------------------- harness
 
-def harness(ctx, mode, req, obs, args=(), timeout=1800):
+def harness(ctx, mode, req, obs, args=(), timeout=1800, binpath=None, stack_kb=None):
     """Execute the real code. Returns (stdout, stderr) of the child process. A crash/hang of the child is data
     for the caller (returncode attached)."""
     t = time.time()
     try:
-        cmd = [THREADS_BIN, req, obs] if mode == "threads" else [HARNESS_BIN, mode, req, obs]
-        p = subprocess.run(cmd + [str(a) for a in args], stdout=subprocess.PIPE,
+        cmd = [THREADS_BIN, req, obs] if mode == "threads" else [binpath or HARNESS_BIN, mode, req, obs]
+        pre = None
+        if stack_kb:
+            import resource
+
+            def pre():
+                resource.setrlimit(resource.RLIMIT_STACK, (stack_kb * 1024, resource.getrlimit(resource.RLIMIT_STACK)[1]))
+        p = subprocess.run(cmd + [str(a) for a in args], preexec_fn=pre, stdout=subprocess.PIPE,
                            stderr=subprocess.PIPE, timeout=timeout)
         rc = p.returncode
         so, se = p.stdout, p.stderr
